@@ -2,10 +2,12 @@
    Statements over the Layer-B machine.  The SQLAlchemy session is environment: traces are assumed
    well-formed (trace_wf / flush_wf, Proofs/CoreC01P.v): one event per entity per flush, inserts hit
    absent keys, updates/deletes present ones, an update whose versioned data differs from the stored
-   row is seen as modified, every flushed object is up to date (no row switch), no manual record
-   creation.  The correspondence check monitors these on every recorded trace; the one place where
-   the real environment violates them is the recorded open finding F-C01-row-switch
-   (Refuted/C01_refuted.v). *)
+   row is seen as modified, the values reported for a flushed object are those of its row on the
+   columns its history does not report as changed (`fresh`), no manual record creation.  The
+   correspondence check evaluates these on every recorded trace.  `fresh` used to fail for row
+   switches (delete + add of one key in one flush: attributes never given to the new object read as
+   None during after_flush); since repair c7583cb the package reads them from the row, and so does
+   the recorder, so the hypothesis holds on every recorded trace. *)
 From Continuum Require Import Model.Base Model.VTable Model.Core
      Proofs.CoreP Proofs.CoreChainP Proofs.TrackP Proofs.RowsP Proofs.LiveP Proofs.CoreC01P.
 
